@@ -17,6 +17,6 @@ Task: make ONE realistic change to the framework's non-test source code in the w
 
 The change should look like something a developer could plausibly write (a refactor slip, an optimisation, an off-by-one, a dropped guard, a wrong operand, a reordered statement), and it should need something SPECIFIC to manifest — a particular interleaving, a multi-step sequence of operations, an unusual input, a boundary value, a particular configuration combination, or two cooperating sites that each look fine alone — not something ordinary use would expose at once. {angle}
 
-Also write a demonstration: a new Go test file (name it `zz_seed_demo_test.go` in the affected package; it may be an internal or external test) with one test that FAILS with your change and PASSES on the original code. Verify both directions yourself (use `git stash` / `git stash pop` or `git diff > /tmp/x.patch; git checkout -- <files>; ...; git apply /tmp/x.patch` on the source change while keeping the new test file).
+Also write a demonstration: a new Go test file (name it `zz_seed_demo_test.go` in the affected package; it may be an internal or external test) with one test that FAILS with your change and PASSES on the original code. Verify both directions yourself (do NOT use `git stash` (the stash is shared with other worktrees); use `git diff > <worktree>/../<worktree-name>-x.patch; git checkout -- <files>; ...; git apply <that patch>` on the source change while keeping the new test file).
 
 When done, leave the worktree containing your source change (uncommitted) and the demo test file, and reply with: the files changed, a 3-line explanation of the change and why it breaks the property, what is needed for it to manifest, the exact `go test -run` command for the demo, and the test results you observed (existing tests with the change; demo with and without the change).""")
